@@ -34,8 +34,13 @@ type Op struct {
 	Pin bool `json:"pin,omitempty"`
 }
 
+// ForeignIDs are the ids of the logs joinforeign merges from (indexed by Op.B).
+var ForeignIDs = []string{"Y", "X/", "x", " X"}
+
 func (o Op) String() string {
 	switch o.K {
+	case "joinforeign":
+		return fmt.Sprintf("joinforeign(%d,id=%q)", o.A, ForeignIDs[o.B])
 	case "app":
 		pin := ""
 		if o.Pin {
@@ -121,7 +126,7 @@ type World struct {
 	Pubs []Published
 	// Returned[i] = number of block writes in the store when entry uid i was returned by Append
 	Returned []int
-	foreign  *ipfslog.IPFSLog
+	foreign  map[int]*ipfslog.IPFSLog
 	WriterOf []int // current writer per replica (changes with setid)
 	// Partial: some replica has merged a partial copy of another (joinlast); see adopt
 	Partial bool
@@ -156,8 +161,26 @@ func NewWorld(cfg *Config) *World {
 	w := &World{Cfg: cfg, St: StoreFactory(), UID: map[string]int{}}
 	w.M = &refmodel.Model{WriterRank: writerRank}
 	w.M.Name = func(uid int) string { return w.Ent[uid].GetHash().String() }
+	// Replicas that are configured alike are created from ONE options object, as an application with a
+	// "default options" value would: a log must not keep, or write into, what the caller handed it.
+	var sharedOpts *ipfslog.LogOptions
+	if cfg.SortFor == nil && cfg.IOFor == nil && cfg.AC == nil && len(cfg.StartClock) == 0 {
+		sharedOpts = &ipfslog.LogOptions{ID: "X", SortFn: cfg.sortFn()}
+		if cfg.IO != nil {
+			sharedOpts.IO = cfg.IO()
+		}
+		if cfg.Conc > 0 {
+			sharedOpts.Concurrency = cfg.Conc
+		}
+	}
 	for i, wr := range cfg.Writers {
 		opts := &ipfslog.LogOptions{ID: "X", SortFn: cfg.sortFn()}
+		if sharedOpts != nil {
+			w.Logs = append(w.Logs, world.NewLog(w.St, wr, sharedOpts))
+			w.ML = append(w.ML, refmodel.NewLog(wr, "X"))
+			w.WriterOf = append(w.WriterOf, wr)
+			continue
+		}
 		if cfg.SortFor != nil {
 			opts.SortFn = cfg.SortFor(i)
 		}
@@ -322,13 +345,18 @@ func (w *World) apply(o Op, st *Step) {
 		e := world.NewLog(w.St, w.WriterOf[o.A], &ipfslog.LogOptions{ID: "X", SortFn: w.Cfg.sortFn()})
 		_, st.Err = w.Logs[o.A].Join(e, -1)
 	case "joinforeign":
+		// a log of another id: "Y", or (B = 1, 2, 3) an id that differs from "X" only by a trailing slash, by letter
+		// case, or by surrounding white space; ids are compared exactly
 		if w.foreign == nil {
-			f := world.NewLog(w.St, 3, &ipfslog.LogOptions{ID: "Y", SortFn: w.Cfg.sortFn()})
+			w.foreign = map[int]*ipfslog.IPFSLog{}
+		}
+		if w.foreign[o.B] == nil {
+			f := world.NewLog(w.St, 3, &ipfslog.LogOptions{ID: ForeignIDs[o.B], SortFn: w.Cfg.sortFn()})
 			f.Append(world.Ctx, []byte("y1"), nil)
 			f.Append(world.Ctx, []byte("y2"), nil)
-			w.foreign = f
+			w.foreign[o.B] = f
 		}
-		_, st.Err = w.Logs[o.A].Join(w.foreign, -1)
+		_, st.Err = w.Logs[o.A].Join(w.foreign[o.B], -1)
 	case "pub":
 		c, err := w.Logs[o.A].ToMultihash(world.Ctx)
 		st.Err, st.Cid = err, c
